@@ -80,12 +80,12 @@ def grid(r, c):
     return n, edges
 
 
-def write_search_cases(path, seed, tier):
+def write_search_cases(path, seed, tier, light=False):
     """Random larger graphs (cycles through the source, self-loops, several components,
     ties) and path-explosive families, for the BFS searches and Dijkstra."""
     rng = random.Random(seed)
     out = []
-    nrand = 250 if tier == "quick" else 3000
+    nrand = 40 if light else 250 if tier == "quick" else 3000
     for k in range(nrand):
         n = rng.randint(5, 12 if tier == "quick" else 16)
         directed = rng.random() < 0.5
@@ -171,7 +171,7 @@ def write_search_cases(path, seed, tier):
             out.append({"k": "dijkstra", "dir": False, "g": enc_graph(n, eu, False, {(min(a, b), max(a, b)): w[(a, b)] for (a, b) in e}),
                         "sources": [perm[0], perm[n - 1]], "family": "superlinear-undirected(%d)" % n})
     # adversarial search for work-maximising Dijkstra inputs (guided by the implementation itself)
-    for n in ([10, 14] if tier == "quick" else [10, 14, 20, 30]):
+    for n in ([] if light else [10, 14] if tier == "quick" else [10, 14, 20, 30]):
         for d in (True, False):
             out.append({"k": "dijkstra_adversarial", "dir": d, "n": n, "iterations": 60000 if tier == "quick" else 300000,
                         "restarts": 4 if tier == "quick" else 8, "seed": rng.randint(1, 10 ** 6)})
